@@ -7,7 +7,7 @@
 //! * `(stub-check <schema>)` → outcome of `generate_rust_stub(schema_text, tmpdir)`:
 //!   `ok` | `(conflict vertex A B)` | `(conflict field T A B)` (the two `ensure_no_*_conflicts`
 //!   panics) | `panic:pretty-print` | `panic:unsupported-type` | `panic:<other>` | `refused:<err>`.
-//! * `(stub-compile <schema>)` → `compiles` | `compile-error:<first rustc error>` | `not-generated:<stub-check answer>`:
+//! * `(stub-compile <schema>)` → `compiles` | `compile-error` | `not-generated:<stub-check answer>`:
 //!   the stub is written into a scratch crate outside /repo and /verif and built with
 //!   `cargo test --no-run --offline` against /repo/trustfall. The Lean driver answers this request
 //!   with what the *model* predicts (`compiles` exactly when its checks pass and every generated
@@ -15,7 +15,8 @@
 //!
 //! `<schema>` = `(schema (root (entry Name Type (param Type default|-)…)…)
 //!                       (type|interface Name (implements I…) (prop n Type)|(edge n Type (param Type default|-)…) …)…)`
-use std::collections::BTreeSet;
+use std::collections::{BTreeMap, BTreeSet};
+use std::sync::Mutex;
 use std::path::{Path, PathBuf};
 use std::process::Command;
 
@@ -347,11 +348,23 @@ trustfall = { path = '/repo/trustfall' }
             if let Ok(p) = std::env::var("VERIF_STUB_KEEP_LOG") {
                 let _ = std::fs::write(p, stderr.as_bytes());
             }
-            format!("compile-error:{}", first_rustc_error(&stderr))
+            remember_detail(&sdl, first_rustc_error(&stderr));
+            "compile-error".to_string()
         }
     };
     let _ = std::fs::remove_dir_all(&dir);
     answer
+}
+
+/// rustc's first error per compiled SDL text (diagnostics only: tags and oracle details).
+static DETAILS: Mutex<BTreeMap<u64, String>> = Mutex::new(BTreeMap::new());
+
+fn remember_detail(sdl: &str, detail: String) {
+    DETAILS.lock().unwrap().insert(fnv(sdl), detail);
+}
+
+fn detail_for(desc: &SchemaDesc) -> String {
+    DETAILS.lock().unwrap().get(&fnv(&render_sdl(desc))).cloned().unwrap_or_default()
 }
 
 fn cleanup_scratch() {
@@ -360,34 +373,222 @@ fn cleanup_scratch() {
 }
 
 // ---------------------------------------------------------------------------------------------
+// reference naming (independent re-statement used by the oracles only, never by `eval`)
+// ---------------------------------------------------------------------------------------------
+
+/// What the generated code needs `to_lower_snake_case` to be: an underscore before a capital that
+/// follows a non-capital, non-underscore character.
+fn ref_snake(n: &str) -> String {
+    let mut out = String::new();
+    let mut last = '_';
+    for c in n.chars() {
+        if c.is_ascii_uppercase() {
+            if last != '_' && !last.is_ascii_uppercase() {
+                out.push('_');
+            }
+            out.push(c.to_ascii_lowercase());
+        } else {
+            out.push(c);
+        }
+        last = c;
+    }
+    out
+}
+
+/// trustfall_derive's naming of the `as_<variant>()` methods (an underscore before every capital
+/// that does not follow an underscore).
+fn derive_snake(n: &str) -> String {
+    let mut out = String::new();
+    let mut last = '_';
+    for c in n.chars() {
+        if c.is_ascii_uppercase() {
+            if last != '_' {
+                out.push('_');
+            }
+            out.push(c.to_ascii_lowercase());
+        } else {
+            out.push(c);
+        }
+        last = c;
+    }
+    out
+}
+
+/// Strict and reserved keywords (Rust reference) and `_`: what cannot be an item name.
+const NOT_AN_IDENT: &[&str] = &[
+    "_", "abstract", "as", "async", "await", "become", "box", "break", "const", "continue", "crate", "do", "dyn",
+    "else", "enum", "extern", "false", "final", "fn", "for", "if", "impl", "in", "let", "loop", "macro", "match",
+    "mod", "move", "mut", "override", "priv", "pub", "ref", "return", "Self", "self", "static", "struct", "super",
+    "trait", "true", "try", "type", "typeof", "unsafe", "unsized", "use", "virtual", "where", "while", "yield",
+];
+
+/// The keywords `escaped_rust_name` documents that it escapes.
+const ESCAPED: &[&str] = &[
+    "as", "break", "const", "continue", "crate", "else", "enum", "extern", "false", "fn", "for", "if", "impl",
+    "in", "let", "loop", "match", "mod", "move", "mut", "pub", "ref", "return", "self", "Self", "static",
+    "struct", "super", "trait", "true", "type", "unsafe", "use", "where", "while", "async", "await", "dyn",
+    "try", "macro_rules", "union",
+];
+
+fn ref_escape(n: String) -> String {
+    if ESCAPED.contains(&n.as_str()) { n + "_" } else { n }
+}
+
+fn ref_variant(n: &str) -> String {
+    let mut c = n.chars();
+    let first = c.next().map(|f| f.to_ascii_uppercase()).unwrap_or('?');
+    ref_escape(format!("{first}{}", c.as_str()))
+}
+
+fn ref_item(n: &str) -> String {
+    ref_escape(ref_snake(n))
+}
+
+impl TypeDef {
+    fn edges(&self) -> impl Iterator<Item = (&String, &Vec<Param>)> {
+        self.fields.iter().filter_map(|f| match f {
+            Field::Edge { name, params, .. } => Some((name, params)),
+            _ => None,
+        })
+    }
+    fn has_edges(&self) -> bool {
+        self.edges().next().is_some()
+    }
+}
+
+fn has_dup(v: &[String]) -> bool {
+    let mut seen = BTreeSet::new();
+    v.iter().any(|x| !seen.insert(x.clone()))
+}
+
+/// Does the schema contain names that the generated code would map to one item name in a namespace
+/// the documented checks are responsible for (vertex types; fields of one vertex type)?
+fn expected_conflict(d: &SchemaDesc) -> bool {
+    let types: Vec<String> = d.types.iter().map(|t| ref_item(&t.name)).collect();
+    if has_dup(&types) {
+        return true;
+    }
+    d.types.iter().any(|t| {
+        let fields: Vec<String> = t.fields.iter().map(|f| ref_item(f.name())).collect();
+        has_dup(&fields)
+    })
+}
+
+fn all_params(d: &SchemaDesc) -> Vec<(&Param, bool, bool, bool)> {
+    // (param, belongs to an edge, is first, is last)
+    let mut out = vec![];
+    for e in &d.root {
+        let n = e.params.len();
+        for (i, p) in e.params.iter().enumerate() {
+            out.push((p, false, i == 0, i + 1 == n));
+        }
+    }
+    for t in &d.types {
+        for (_, ps) in t.edges() {
+            let n = ps.len();
+            for (i, p) in ps.iter().enumerate() {
+                out.push((p, true, i == 0, i + 1 == n));
+            }
+        }
+    }
+    out
+}
+
+/// Why the generator panicked, in terms of the schema's names (the class a known finding is keyed by).
+fn panic_cause(d: &SchemaDesc, answer: &str) -> String {
+    if answer.ends_with("panic:unsupported-type") {
+        let base = |ty: &str| ty.replace(['[', ']', '!'], "");
+        return if all_params(d).iter().any(|(p, ..)| base(&p.ty) == "ID") {
+            "unsupported-type:param-type-ID".into()
+        } else {
+            "unsupported-type:unexplained".into()
+        };
+    }
+    if answer.ends_with("panic:pretty-print") {
+        if all_params(d).iter().any(|(p, ..)| NOT_AN_IDENT.contains(&p.name.as_str()) && p.name != "_") {
+            return "pretty-print:param-keyword".into();
+        }
+        let mut items: Vec<String> = d.root.iter().map(|e| ref_item(&e.name)).collect();
+        for t in &d.types {
+            items.push(ref_variant(&t.name));
+            if t.has_edges() {
+                items.push(ref_item(&t.name));
+                items.extend(t.edges().map(|(n, _)| ref_item(n)));
+            }
+        }
+        return if items.iter().any(|i| NOT_AN_IDENT.contains(&i.as_str())) {
+            "pretty-print:item-reserved-keyword".into()
+        } else {
+            "pretty-print:unexplained".into()
+        };
+    }
+    format!("unexplained:{answer}")
+}
+
+/// Why an accepted schema's stub does not compile, in terms of the schema's names.
+fn compile_cause(d: &SchemaDesc) -> String {
+    for (p, is_edge, _first, last) in all_params(d) {
+        let n = p.name.as_str();
+        if (is_edge && n == "contexts")
+            || n == "_resolve_info"
+            || n == "resolve_info"
+            || NOT_AN_IDENT.contains(&n)
+            || (n == "parameters" && !last)
+        {
+            return "param-binding".into();
+        }
+    }
+    let variants: Vec<String> = d.types.iter().map(|t| ref_variant(&t.name)).collect();
+    if has_dup(&variants) {
+        return "duplicate-variant".into();
+    }
+    let entry_fns: Vec<String> = d.root.iter().map(|e| ref_item(&e.name)).collect();
+    if has_dup(&entry_fns) {
+        return "duplicate-entrypoint-fn".into();
+    }
+    let conv: Vec<String> = variants.iter().map(|v| derive_snake(v)).collect();
+    if has_dup(&conv) {
+        return "duplicate-conversion".into();
+    }
+    if d.types.iter().any(|t| t.has_edges() && ref_snake(&ref_variant(&t.name)) != derive_snake(&ref_variant(&t.name))) {
+        return "conversion-name-mismatch".into();
+    }
+    if d.types.iter().any(|t| t.has_edges() && ref_item(&t.name) == "trustfall")
+        || d.types.iter().any(|t| t.edges().any(|(n, _)| ref_item(n) == "resolve_neighbors_with"))
+    {
+        return "import-collision".into();
+    }
+    format!("unexplained:{}", detail_for(d))
+}
+
+// ---------------------------------------------------------------------------------------------
 // name corpus
 // ---------------------------------------------------------------------------------------------
 
-/// The keyword table of `escaped_rust_name` plus every other strict / reserved / weak keyword of the
-/// Rust reference (which the table does not list).
+/// Every strict / reserved / weak keyword of the Rust reference, plus `gen`.
 const KEYWORDS: &[&str] = &[
     "as", "break", "const", "continue", "crate", "else", "enum", "extern", "false", "fn", "for", "if", "impl",
     "in", "let", "loop", "match", "mod", "move", "mut", "pub", "ref", "return", "self", "Self", "static",
     "struct", "super", "trait", "true", "type", "unsafe", "use", "where", "while", "async", "await", "dyn",
     "try", "macro_rules", "union", "abstract", "become", "box", "do", "final", "macro", "override", "priv",
-    "typeof", "unsized", "virtual", "yield", "gen", "safe", "raw",
+    "typeof", "unsized", "virtual", "yield", "gen", "safe", "raw", "auto", "default",
 ];
 
 fn name_corpus(tier: Tier, rng: &mut Rng) -> Vec<String> {
     let mut v: Vec<String> = vec![];
     let base = [
-        "a", "A", "_", "__x", "x_", "x__", "_x", "a1", "A1", "a_1", "fooBar", "FooBar", "foo_bar", "Foo_Bar",
-        "foo__bar", "FOO_BAR", "FOOBar", "fooBAR", "FooBAR", "fOO", "FOO", "Foo", "foo", "userID", "UserID",
+        "a", "A", "_", "x_", "x__", "_x", "a1", "A1", "a_1", "fooBar", "FooBar", "foo_bar", "Foo_Bar", "foo__bar",
+        "FOO_BAR", "FOOBar", "fooBAR", "FooBAR", "fOO", "FOO", "Foo", "foo", "FOo", "F_oo", "userID", "UserID",
         "user_id", "HTTPRequest", "httpRequest", "Http_Request", "iPhone", "IPhone", "x1Y2", "X1y2", "aB", "Ab",
-        "AB", "ab", "a_B", "A_b", "_A", "_a", "_Ab", "__A", "A_", "A__", "number123Middle", "Number123Middle",
-        "Type", "Type_", "type_", "Self_", "self_", "Match", "MATCH", "mAtch", "Static", "r", "r_", "contexts",
+        "AB", "ab", "a_B", "A_b", "_A", "_a", "_Ab", "A_", "A__", "number123Middle", "Number123Middle", "Type",
+        "Type_", "type_", "Self_", "self_", "Match", "MATCH", "mAtch", "Static", "r", "r_", "contexts",
         "resolve_info", "_resolve_info", "parameters", "edge_name", "vertex", "Vertex", "Adapter", "Trustfall",
         "trustfall", "resolve_neighbors_with", "resolveNeighborsWith", "Std", "Core", "Option", "Vec", "String",
+        "'static", "z9_", "Q", "q_Q_q",
     ];
     v.extend(base.iter().map(|s| s.to_string()));
     for k in KEYWORDS {
         v.push(k.to_string());
-        // capitalised / camel / suffixed relatives
         let mut c = k.chars();
         if let Some(f) = c.next() {
             v.push(format!("{}{}", f.to_ascii_uppercase(), c.as_str()));
@@ -396,7 +597,7 @@ fn name_corpus(tier: Tier, rng: &mut Rng) -> Vec<String> {
         v.push(format!("_{k}"));
         v.push(k.to_ascii_uppercase());
     }
-    let n = if tier == Tier::Quick { 300 } else { 6000 };
+    let n = if tier == Tier::Quick { 400 } else { 8000 };
     const ALPHA: &[u8] = b"abcXYZ_019";
     for _ in 0..n {
         let len = 1 + rng.below(7);
@@ -423,6 +624,10 @@ fn is_graphql_name(s: &str) -> bool {
     }
 }
 
+fn consecutive_capitals(s: &str) -> bool {
+    s.as_bytes().windows(2).any(|w| w[0].is_ascii_uppercase() && w[1].is_ascii_uppercase())
+}
+
 // ---------------------------------------------------------------------------------------------
 // schema generators
 // ---------------------------------------------------------------------------------------------
@@ -440,8 +645,8 @@ const PARAM_TYPES: &[(&str, &str)] = &[
     ("[[Float!]]!", "[[1.5]]"),
 ];
 
-/// Names that keep clear of every *known* generator defect (see known_findings.json): no Rust
-/// keyword relatives, no two consecutive capitals, no name colliding with the templates' bindings.
+/// Names that keep clear of every *known* generator defect (known_findings.json): no keyword
+/// relatives, no two consecutive capitals, nothing colliding with the templates' own bindings or imports.
 const SAFE_TYPE_NAMES: &[&str] = &[
     "Story", "Comment", "user", "web_page", "Item2", "JobPosting", "Ab", "node_", "Repo_Owner", "x", "Q9", "_Hidden",
 ];
@@ -449,6 +654,23 @@ const SAFE_FIELD_NAMES: &[&str] = &[
     "id", "byUser", "by_username", "ownText", "Score", "url", "link_", "_private", "parent2", "topLevel", "Kids",
     "x", "aB", "submitted_", "commit9", "n_1",
 ];
+const SAFE_PARAM_NAMES: &[&str] = &["min", "max", "userName", "Limit", "page_size", "q", "_skip", "n1", "vertex", "edge_name"];
+
+const RISKY_TYPE_NAMES: &[&str] = &[
+    "Story", "story", "STORY", "FooBar", "foo_bar", "fooBar", "Foo_Bar", "Type", "Type_", "type_", "Self", "self_",
+    "Match", "Mod", "Do", "Final", "Yield", "fOO", "FOO", "UserID", "user_id", "_", "X_", "Trustfall", "Box", "Priv",
+    "Item", "Node", "Become", "Gen", "Union",
+];
+const RISKY_FIELD_NAMES: &[&str] = &[
+    "id", "Id", "ID", "byUser", "by_user", "ByUser", "type", "type_", "Type", "match", "self", "Self", "super",
+    "crate", "async", "try", "union", "do", "final", "yield", "box", "priv", "macro", "abstract", "gen", "_",
+    "resolve_neighbors_with", "name", "url", "fn", "mod", "move", "loop", "become", "typeof",
+];
+const RISKY_PARAM_NAMES: &[&str] = &[
+    "min", "max", "match", "self", "type", "contexts", "resolve_info", "_resolve_info", "parameters", "_", "do",
+    "Self", "crate", "super", "try", "union", "gen", "x", "true", "false", "yield",
+];
+const RISKY_PARAM_TYPES: &[(&str, &str)] = &[("Int!", "5"), ("String", "null"), ("ID", "null"), ("[ID!]", "null"), ("Boolean!", "true")];
 
 fn wrap_edge_type(rng: &mut Rng, target: &str) -> String {
     match rng.below(5) {
@@ -460,7 +682,7 @@ fn wrap_edge_type(rng: &mut Rng, target: &str) -> String {
     }
 }
 
-fn gen_params(rng: &mut Rng, names: &[&str]) -> Vec<Param> {
+fn gen_params(rng: &mut Rng, names: &[&str], types: &[(&str, &str)]) -> Vec<Param> {
     let n = [0, 0, 1, 1, 2, 3][rng.below(6)];
     let mut used = BTreeSet::new();
     let mut out = vec![];
@@ -469,18 +691,25 @@ fn gen_params(rng: &mut Rng, names: &[&str]) -> Vec<Param> {
         if !used.insert(name.clone()) {
             continue;
         }
-        let (ty, d) = *rng.pick(PARAM_TYPES);
+        let (ty, d) = *rng.pick(types);
         out.push(Param { name, ty: ty.to_string(), default: if rng.chance(1, 2) { Some(d.to_string()) } else { None } });
     }
     out
 }
 
-/// A valid schema over the given name pools: 2-5 vertex types, optional interface with implementers
-/// (inherited fields redeclared), properties of built-in scalar types, edges and entry points with
-/// parameters.
-fn gen_schema(rng: &mut Rng, type_pool: &[&str], field_pool: &[&str], param_pool: &[&str]) -> SchemaDesc {
+struct Pools<'a> {
+    types: &'a [&'a str],
+    fields: &'a [&'a str],
+    params: &'a [&'a str],
+    param_types: &'a [(&'a str, &'a str)],
+}
+
+/// A valid schema over the given name pools: 2-5 vertex types, optionally an interface with
+/// implementers (inherited fields redeclared), properties of built-in scalar types, edges and entry
+/// points with parameters.
+fn gen_schema(rng: &mut Rng, pools: &Pools<'_>) -> SchemaDesc {
     let n = 2 + rng.below(4);
-    let mut pool: Vec<&str> = type_pool.to_vec();
+    let mut pool: Vec<&str> = pools.types.to_vec();
     for i in (1..pool.len()).rev() {
         pool.swap(i, rng.below(i + 1));
     }
@@ -495,7 +724,7 @@ fn gen_schema(rng: &mut Rng, type_pool: &[&str], field_pool: &[&str], param_pool
         if !implements.is_empty() {
             fields.extend(types[0].fields.iter().cloned());
         }
-        let mut fpool: Vec<&str> = field_pool.to_vec();
+        let mut fpool: Vec<&str> = pools.fields.to_vec();
         for k in (1..fpool.len()).rev() {
             fpool.swap(k, rng.below(k + 1));
         }
@@ -504,7 +733,8 @@ fn gen_schema(rng: &mut Rng, type_pool: &[&str], field_pool: &[&str], param_pool
         if fields.is_empty() && n_props + n_edges == 0 {
             n_props = 1;
         }
-        let mut it = fpool.into_iter().filter(|f| !fields.iter().any(|g| g.name() == *f)).collect::<Vec<_>>().into_iter();
+        let avail: Vec<&str> = fpool.into_iter().filter(|f| !fields.iter().any(|g| g.name() == *f)).collect();
+        let mut it = avail.into_iter();
         for _ in 0..n_props {
             if let Some(f) = it.next() {
                 fields.push(Field::Prop { name: f.to_string(), ty: rng.pick(PROP_TYPES).to_string() });
@@ -516,7 +746,7 @@ fn gen_schema(rng: &mut Rng, type_pool: &[&str], field_pool: &[&str], param_pool
                 fields.push(Field::Edge {
                     name: f.to_string(),
                     ty: wrap_edge_type(rng, target),
-                    params: gen_params(rng, param_pool),
+                    params: gen_params(rng, pools.params, pools.param_types),
                 });
             }
         }
@@ -525,22 +755,103 @@ fn gen_schema(rng: &mut Rng, type_pool: &[&str], field_pool: &[&str], param_pool
     // entry points: one per type under the type's own name (as schemas usually do), plus a few extra
     let mut root = vec![];
     for t in &types {
-        root.push(Entry { name: t.name.clone(), ty: format!("[{}!]!", t.name), params: gen_params(rng, param_pool) });
+        root.push(Entry {
+            name: t.name.clone(),
+            ty: format!("[{}!]!", t.name),
+            params: gen_params(rng, pools.params, pools.param_types),
+        });
     }
     let extra = rng.below(3);
-    let mut epool: Vec<&str> = field_pool.to_vec();
+    let mut epool: Vec<&str> = pools.fields.to_vec();
     for k in (1..epool.len()).rev() {
         epool.swap(k, rng.below(k + 1));
     }
     for f in epool.into_iter().filter(|f| !types.iter().any(|t| t.name == *f)).take(extra) {
         let target = names[rng.below(n)];
-        root.push(Entry { name: f.to_string(), ty: wrap_edge_type(rng, target), params: gen_params(rng, param_pool) });
+        root.push(Entry {
+            name: f.to_string(),
+            ty: wrap_edge_type(rng, target),
+            params: gen_params(rng, pools.params, pools.param_types),
+        });
     }
     SchemaDesc { root, types }
 }
 
-fn safe_param_names() -> Vec<&'static str> {
-    vec!["min", "max", "userName", "Limit", "page_size", "q", "_skip", "n1"]
+/// One name in each position a generated identifier is derived from.
+fn position_probes(k: &str) -> Vec<(SchemaDesc, &'static str)> {
+    let a = |fields: Vec<Field>| TypeDef { name: "A".into(), is_interface: false, implements: vec![], fields };
+    let x = || Field::Prop { name: "x".into(), ty: "Int".into() };
+    let root_a = || Entry { name: "A".into(), ty: "[A!]!".into(), params: vec![] };
+    let p = |n: &str| Param { name: n.to_string(), ty: "Int".into(), default: None };
+    let mut cap = k.to_string();
+    if let Some(f) = cap.get(0..1) {
+        cap = format!("{}{}", f.to_ascii_uppercase(), &k[1..]);
+    }
+    let mut out = vec![
+        (
+            SchemaDesc {
+                root: vec![root_a()],
+                types: vec![a(vec![x(), Field::Edge { name: "e".into(), ty: "[A!]".into(), params: vec![p(k)] }])],
+            },
+            "pos:edge-param",
+        ),
+        (
+            SchemaDesc {
+                root: vec![root_a()],
+                types: vec![a(vec![x(), Field::Edge { name: k.into(), ty: "[A!]".into(), params: vec![] }])],
+            },
+            "pos:edge",
+        ),
+        (
+            SchemaDesc {
+                root: vec![root_a(), Entry { name: k.into(), ty: "A".into(), params: vec![p(k)] }],
+                types: vec![a(vec![x()])],
+            },
+            "pos:entry+first-param",
+        ),
+        (
+            SchemaDesc {
+                root: vec![Entry { name: "A".into(), ty: "[A!]!".into(), params: vec![p("a"), p(k)] }],
+                types: vec![a(vec![x()])],
+            },
+            "pos:entry-second-param",
+        ),
+        (
+            SchemaDesc {
+                root: vec![root_a()],
+                types: vec![a(vec![x(), Field::Prop { name: k.into(), ty: "String".into() }])],
+            },
+            "pos:property",
+        ),
+    ];
+    if k != "A" && cap != "A" {
+        out.push((
+            SchemaDesc {
+                root: vec![root_a()],
+                types: vec![
+                    TypeDef {
+                        name: cap.clone(),
+                        is_interface: false,
+                        implements: vec![],
+                        fields: vec![x(), Field::Edge { name: "e".into(), ty: "[A!]".into(), params: vec![] }],
+                    },
+                    a(vec![x()]),
+                ],
+            },
+            "pos:type-with-edges",
+        ));
+        out.push((
+            SchemaDesc {
+                root: vec![root_a()],
+                types: vec![
+                    TypeDef { name: k.into(), is_interface: false, implements: vec![], fields: vec![x()] },
+                    a(vec![x()]),
+                ],
+            },
+            "pos:type-without-edges",
+        ));
+    }
+    out
 }
 
 // ---------------------------------------------------------------------------------------------
@@ -556,20 +867,20 @@ impl Prop for C26 {
         "C26"
     }
     fn rule(&self) -> &'static str {
-        "three streams. (1) mangle: every name of a corpus of GraphQL-valid names (camelCase, snake_case, SCREAMING, leading/trailing/double underscores, digits, single letters, every Rust keyword incl. reserved and weak ones with their capitalised/suffixed relatives, names differing only in case or underscores, names of the templates' own bindings, seeded random names over [abcXYZ_019]) through to_lower_snake_case, upper_case_variant_name, escaped_rust_name (non-trivial: the function changes the name). (2) stub-check: generate_rust_stub outcome (ok / conflict refusal / panic) on seeded valid schemas over name pools that include colliding names, keywords and unsupported parameter types (non-trivial: outcome is not ok, or the schema has names the mangling changes). (3) stub-compile: the generated stub is built with `cargo test --no-run --offline` in a scratch crate; schemas drawn from pools that avoid the known generator defects plus one witness schema per known defect (non-trivial: every case)."
+        "three streams. (1) mangle: every name of a corpus (camelCase, snake_case, SCREAMING, leading/trailing/double underscores, digits, single letters, every Rust keyword incl. reserved and weak ones with capitalised/suffixed/prefixed relatives, names differing only in case or underscores, names of the templates' own bindings and imports, seeded random names over [abcXYZ_019]) through to_lower_snake_case, upper_case_variant_name, escaped_rust_name; non-trivial: the function changes the name. (2) stub-check: outcome of generate_rust_stub (ok / conflict refusal / panic) on (a) every keyword-ish name placed in every position a generated identifier is derived from (edge parameter, edge, entry point + first parameter, second entry parameter, property, type with edges, type without edges) and (b) seeded valid schemas over a safe pool, a pool of colliding/keyword type names, and a pool with colliding/keyword names everywhere incl. ID-typed parameters; non-trivial: the outcome is not ok. (3) stub-compile: the generated stub is built with `cargo test --no-run --offline` in a scratch crate against /repo/trustfall; seeded schemas from the safe pool plus (corpus) one witness per known defect; every case is non-trivial."
     }
     fn generate(&self, tier: Tier, rng: &mut Rng) -> Vec<Case> {
         let mut out = vec![];
         // (1) mangling
         for n in name_corpus(tier, rng) {
-            if !is_graphql_name(&n) {
+            if !is_graphql_name(&n) && n != "'static" {
                 continue;
             }
             for f in ["snake", "variant", "escape"] {
                 let changed = match f {
-                    "snake" => hooks::to_lower_snake_case(&n) != n,
-                    "variant" => hooks::upper_case_variant_name(&n) != n,
-                    _ => hooks::escaped_rust_name(n.clone()) != n,
+                    "snake" => ref_snake(&n) != n,
+                    "variant" => !n.starts_with(|c: char| !c.is_ascii_lowercase()),
+                    _ => ESCAPED.contains(&n.as_str()) || n == "'static",
                 };
                 let tag = format!("mangle:{f}");
                 let mut tags = vec![tag.as_str()];
@@ -579,39 +890,35 @@ impl Prop for C26 {
                 out.push(Case::new(Sexp::call("mangle", vec![Sexp::atom(f), hex_name(&n)]), &tags));
             }
         }
-        // (2) generator outcome on schemas with risky names
-        let risky_types: Vec<&str> = vec![
-            "Story", "story", "STORY", "FooBar", "foo_bar", "fooBar", "Foo_Bar", "Type", "Type_", "type_", "Self",
-            "self_", "Match", "Mod", "Do", "Final", "Yield", "fOO", "FOO", "UserID", "user_id", "_", "X_",
-            "Trustfall", "Box", "Priv", "Item", "Node",
-        ];
-        let risky_fields: Vec<&str> = vec![
-            "id", "Id", "ID", "byUser", "by_user", "ByUser", "type", "type_", "Type", "match", "self", "Self", "super",
-            "crate", "async", "try", "union", "do", "final", "yield", "box", "priv", "macro", "abstract", "gen", "_",
-            "resolve_neighbors_with", "name", "url", "fn", "mod", "move", "loop",
-        ];
-        let risky_params: Vec<&str> = vec![
-            "min", "max", "match", "self", "type", "contexts", "resolve_info", "_resolve_info", "parameters", "_", "do",
-            "Self", "crate", "super", "try", "union", "gen", "x",
-        ];
-        let n_check = if tier == Tier::Quick { 120 } else { 1500 };
+        // (2a) every keyword-ish name in every position
+        let mut probes: Vec<String> = KEYWORDS.iter().map(|s| s.to_string()).collect();
+        probes.extend(["_", "contexts", "resolve_info", "parameters", "r", "Type_", "dyn_"].map(String::from));
+        for k in &probes {
+            for (desc, pos) in position_probes(k) {
+                out.push(Case::new(Sexp::call("stub-check", vec![schema_to_sexp(&desc)]), &["stub-check", "sweep", pos]));
+            }
+        }
+        // (2b) generator outcome on seeded schemas
+        let safe = Pools { types: SAFE_TYPE_NAMES, fields: SAFE_FIELD_NAMES, params: SAFE_PARAM_NAMES, param_types: PARAM_TYPES };
+        let risky_types = Pools { types: RISKY_TYPE_NAMES, ..Pools { types: &[], fields: SAFE_FIELD_NAMES, params: SAFE_PARAM_NAMES, param_types: PARAM_TYPES } };
+        let risky_all = Pools { types: RISKY_TYPE_NAMES, fields: RISKY_FIELD_NAMES, params: RISKY_PARAM_NAMES, param_types: RISKY_PARAM_TYPES };
+        let n_check = if tier == Tier::Quick { 150 } else { 3000 };
         for i in 0..n_check {
-            let desc = match i % 3 {
-                0 => gen_schema(rng, SAFE_TYPE_NAMES, &safe_fields(), &safe_param_names()),
-                1 => gen_schema(rng, &risky_types, &safe_fields(), &safe_param_names()),
-                _ => gen_schema(rng, &risky_types, &risky_fields, &risky_params),
+            let (pools, pool) = match i % 3 {
+                0 => (&safe, "pool:safe"),
+                1 => (&risky_types, "pool:risky-types"),
+                _ => (&risky_all, "pool:risky-all"),
             };
-            let pool = ["safe", "risky-types", "risky-all"][i % 3];
-            let tag = format!("pool:{pool}");
-            out.push(Case::new(Sexp::call("stub-check", vec![schema_to_sexp(&desc)]), &["stub-check", tag.as_str()]));
+            let desc = gen_schema(rng, pools);
+            out.push(Case::new(Sexp::call("stub-check", vec![schema_to_sexp(&desc)]), &["stub-check", pool]));
         }
         // (3) compile oracle
-        let n_compile = if tier == Tier::Quick { 3 } else { 30 };
+        let n_compile = if tier == Tier::Quick { 3 } else { 40 };
         for _ in 0..n_compile {
-            let desc = gen_schema(rng, SAFE_TYPE_NAMES, &safe_fields(), &safe_param_names());
+            let desc = gen_schema(rng, &safe);
             out.push(Case::new(
                 Sexp::call("stub-compile", vec![schema_to_sexp(&desc)]),
-                &["stub-compile", "nt:compile-oracle"],
+                &["stub-compile", "pool:safe", "nt:compile-oracle"],
             ));
         }
         out
@@ -650,7 +957,7 @@ impl Prop for C26 {
         }
     }
     fn post_tags(&self, e: &Evaluated) -> Vec<String> {
-        let Some((h, _)) = e.request.as_call() else { return vec![] };
+        let Some((h, args)) = e.request.as_call() else { return vec![] };
         if h == "mangle" {
             return vec![];
         }
@@ -659,38 +966,78 @@ impl Prop for C26 {
         } else if e.answer.starts_with("(conflict field") {
             "conflict-field".to_string()
         } else {
-            e.answer.split(':').take(2).collect::<Vec<_>>().join(":").chars().take(60).collect()
+            e.answer.chars().take(60).collect()
         };
         let mut tags = vec![format!("outcome:{class}")];
         if h == "stub-check" && e.answer != "ok" {
             tags.push("nt:generator-refuses-or-panics".into());
+        }
+        if e.answer == "compile-error" {
+            if let Some(d) = args.first().and_then(sexp_to_schema) {
+                tags.push(format!("rustc:{}", detail_for(&d).chars().take(40).collect::<String>()));
+            }
         }
         tags
     }
     fn oracle(&self, evaluated: &[Evaluated]) -> Vec<OracleFailure> {
         let mut fails = vec![];
         for e in evaluated {
-            let Some((h, _)) = e.request.as_call() else { continue };
+            let Some((h, args)) = e.request.as_call() else { continue };
             let mut fail = |key: String, detail: String| {
                 fails.push(OracleFailure { key, detail, requests: vec![e.line.clone()] });
             };
             match h {
-                // every generated schema is valid and uses built-in scalars only: the generator must
-                // produce a stub (a conflict refusal is the documented way out for colliding names)
-                "stub-check" => {
-                    if e.answer.starts_with("panic:") || e.answer == "panic" {
-                        fail(format!("generator-panic:{}", e.answer), e.panic_info.clone().unwrap_or_default());
-                    } else if e.answer.starts_with("refused:") {
-                        fail("generated-schema-rejected".into(), e.answer.clone());
+                // the generated edge resolvers call `as_<to_lower_snake_case(variant)>()`, a method the
+                // derive macro names by its own rule: the two must agree (they can only on names
+                // without two consecutive capitals); the output must be a lower-case identifier
+                "mangle" => {
+                    let (Some(f), Some(n)) = (args.first().and_then(Sexp::as_atom), args.get(1).and_then(Sexp::as_atom)) else { continue };
+                    let (Some(n), Some(out)) = (unhex(n).and_then(|b| String::from_utf8(b).ok()), unhex(&e.answer).and_then(|b| String::from_utf8(b).ok())) else {
+                        if e.answer == "panic" && is_graphql_name(&String::from_utf8(unhex(n).unwrap_or_default()).unwrap_or_default()) {
+                            fail(format!("mangle-panics:{f}"), e.line.clone());
+                        }
+                        continue;
+                    };
+                    if !is_graphql_name(&n) {
+                        continue;
+                    }
+                    match f {
+                        "snake" => {
+                            if out.chars().any(|c| c.is_ascii_uppercase()) || !is_graphql_name(&out) {
+                                fail("snake-not-a-lowercase-identifier".into(), format!("{n} -> {out}"));
+                            } else if !consecutive_capitals(&n) && out != derive_snake(&n) {
+                                fail("snake-disagrees-with-derive-naming".into(), format!("{n} -> {out}, derive macro: {}", derive_snake(&n)));
+                            }
+                        }
+                        "variant" => {
+                            if !is_graphql_name(&out) || out.starts_with(|c: char| c.is_ascii_lowercase()) {
+                                fail("variant-not-capitalised".into(), format!("{n} -> {out}"));
+                            }
+                        }
+                        _ => {
+                            if ESCAPED.contains(&out.as_str()) {
+                                fail("escape-leaves-documented-keyword".into(), format!("{n} -> {out}"));
+                            }
+                        }
                     }
                 }
-                "stub-compile" => {
-                    if e.answer.starts_with("compile-error") {
-                        fail(format!("stub-does-not-compile:{}", e.answer), e.answer.clone());
-                    } else if e.answer.starts_with("not-generated:panic") {
-                        fail(format!("generator-panic:{}", &e.answer["not-generated:".len()..]), e.answer.clone());
-                    } else if e.answer.starts_with("not-generated:refused") {
+                // every generated schema is valid and uses built-in scalars only: the generator must
+                // produce a stub, or refuse exactly the schemas whose names collide
+                "stub-check" | "stub-compile" => {
+                    let Some(desc) = args.first().and_then(sexp_to_schema) else { continue };
+                    let gen_answer = e.answer.strip_prefix("not-generated:").unwrap_or(&e.answer);
+                    if gen_answer.starts_with("panic") {
+                        fail(format!("generator-panic:{}", panic_cause(&desc, gen_answer)), e.panic_info.clone().unwrap_or_default());
+                    } else if gen_answer.starts_with("refused:") || e.answer == "bad-op" {
                         fail("generated-schema-rejected".into(), e.answer.clone());
+                    } else if gen_answer.starts_with("(conflict") {
+                        if !expected_conflict(&desc) {
+                            fail("spurious-conflict".into(), e.answer.clone());
+                        }
+                    } else if expected_conflict(&desc) {
+                        fail("collision-not-refused".into(), format!("names collide after mangling but the generator answered {}", e.answer));
+                    } else if e.answer == "compile-error" {
+                        fail(format!("stub-does-not-compile:{}", compile_cause(&desc)), detail_for(&desc));
                     }
                 }
                 _ => {}
@@ -706,12 +1053,9 @@ impl Prop for C26 {
             "stub_check_schemas": count("(stub-check"),
             "stub_compile_schemas": count("(stub-compile"),
             "stubs_compiled_ok": evaluated.iter().filter(|e| e.answer == "compiles").count(),
+            "stubs_with_compile_error": evaluated.iter().filter(|e| e.answer == "compile-error").count(),
         })
     }
-}
-
-fn safe_fields() -> Vec<&'static str> {
-    SAFE_FIELD_NAMES.to_vec()
 }
 
 fn main() {
